@@ -755,7 +755,45 @@ class Engine:
 	def x_While(self, node, st):
 		yield from self.run_loop(node, st, kind='while')
 
+	def _prange_frame(self, node, st):
+		"""prange(N): iterations may run in any interleaving on any number of threads.  The sequential result is the
+		result of every schedule if iteration i writes only cell [i] of its output views (plus loop-private scalars) and
+		reads no cell that another iteration writes.  Checked syntactically on the loop body."""
+		site = f'loop{self.nodeidx.loop[id(node)]}'
+		var = node.target.id if isinstance(node.target, ast.Name) else None
+		written_arrays, ok_writes, private = set(), True, set()
+		for n in ast.walk(ast.Module(body=node.body, type_ignores=[])):
+			if isinstance(n, (ast.Assign, ast.AugAssign)):
+				targets = n.targets if isinstance(n, ast.Assign) else [n.target]
+				for t in targets:
+					if isinstance(t, ast.Name):
+						private.add(t.id)
+					elif isinstance(t, ast.Subscript) and isinstance(t.value, ast.Name) and isinstance(t.slice, ast.Name) and t.slice.id == var and isinstance(n, ast.Assign):
+						written_arrays.add(t.value.id)
+					else:
+						ok_writes = False
+		reads_written = False
+		store_bases = set()
+		for n in ast.walk(ast.Module(body=node.body, type_ignores=[])):
+			if isinstance(n, ast.Subscript) and isinstance(n.ctx, ast.Store) and isinstance(n.value, ast.Name):
+				store_bases.add(id(n.value))
+		for n in ast.walk(ast.Module(body=node.body, type_ignores=[])):
+			if isinstance(n, ast.Name) and isinstance(n.ctx, ast.Load) and n.id in written_arrays and id(n) not in store_bases:
+				reads_written = True
+		declared = all(p in st.ctypes for p in private)
+		self.oblige(st, site, 'prange/iteration-writes-only-its-own-cell', bool(ok_writes and var is not None))
+		self.oblige(st, site, 'prange/no-iteration-reads-a-written-array', not reads_written)
+		self.oblige(st, site, 'prange/assigned-scalars-are-declared-locals(lastprivate)', bool(declared))
+		# the written views must not alias the views that are read: different heap objects
+		for w in written_arrays:
+			wv = st.env.get(w)
+			for nm, v in st.env.items():
+				if nm != w and isinstance(v, Ref) and isinstance(wv, Ref) and nm in {x.id for x in ast.walk(ast.Module(body=node.body, type_ignores=[])) if isinstance(x, ast.Name)}:
+					self.oblige(st, site, f'prange/no-alias[{w},{nm}]', v.addr != wv.addr)
+
 	def x_For(self, node, st):
+		if isinstance(node.iter, ast.Call) and ast.unparse(node.iter.func).split('.')[-1] == 'prange':
+			self._prange_frame(node, st)
 		for s2, it in self.ev(node.iter, st):
 			if isinstance(it, Raised):
 				yield s2, Outcome('raise', it)
@@ -949,6 +987,8 @@ class Engine:
 			return
 		if hasattr(c, 'fresh_like'):
 			nc = c.fresh_like(name)
+			if isinstance(nc, SSeq) and ref.kind in ('f32view', 'ndarray', 'memview'):
+				nc = SSeq(nc.T, nc.arr, c.length)      # buffers keep their size: only the contents are unknown
 			if isinstance(nc, SSeq):
 				st.assume(nc.length >= 0)
 			if isinstance(nc, SArr) and c.elem is not None and c.elem.kind == 'int':
@@ -1779,6 +1819,12 @@ class Engine:
 							else:
 								yield s3, Raised('IndexError')
 				return
+			if isinstance(c, SSeq) and is_intlike(idx) and cm:
+				i = int_term(idx)
+				self.oblige(st, site, 'in-bounds', z3.And(i >= 0, i < c.length))
+				st.heap[obj.addr] = c.store(i, self.to_elem(st, c.T, v))
+				yield st, None
+				return
 			if isinstance(c, SSeq) and is_intlike(idx):
 				i = int_term(idx)
 				for s2, neg in self.branch(st, i < 0):
@@ -2303,6 +2349,10 @@ class Engine:
 			return SRec(T, T.make_term(rec.fields))
 		if isinstance(T, TArr) and isinstance(v, Ref):
 			return st.heap[v.addr]
+		if isinstance(T, TRec) and T.name == 'Slice' and isinstance(v, SSlice):
+			if v.step is not None:
+				raise Unsupported('yielded slice with a step')
+			return SRec(T, T.make_term({'start': v.start, 'stop': v.stop}))
 		h = self.lib.get('__to_elem__')
 		if h is not None:
 			r = h(self, st, T, v)
